@@ -28,66 +28,6 @@ def full_name(h):
     return "%s::proofs::%s" % (h["module"], h["name"])
 
 
-PROPS = {}
-
-# ----------------------------------------------------------------------------- SELFTEST (driver only)
-PROPS["SELFTEST"] = {
-    "claim": "must-fail harnesses; exercises counterexample extraction and native replay",
-    "harnesses": [
-        H("selftest_fail_assert", "selftest", unwind=10),
-        H("selftest_fail_oob", "selftest", unwind=10),
-    ],
-}
-
-# ----------------------------------------------------------------------------- C15
-_C15_CTORS = [
-    ("c15_ctor_vlan_id", "VlanId::try_new / TryFrom<u16>", "all 2^16 values"),
-    ("c15_ctor_vlan_pcp", "VlanPcp::try_new / TryFrom<u8>", "all 2^8 values"),
-    ("c15_ctor_ip_dscp", "IpDscp::try_new / TryFrom<u8>", "all 2^8 values"),
-    ("c15_ctor_ip_ecn", "IpEcn::try_new / TryFrom<u8>", "all 2^8 values"),
-    ("c15_ctor_ip_frag_offset", "IpFragOffset::try_new / TryFrom<u16>", "all 2^16 values"),
-    ("c15_ctor_ipv6_flow_label", "Ipv6FlowLabel::try_new / TryFrom<u32>", "all 2^32 values"),
-    ("c15_ctor_macsec_an", "MacsecAn::try_new / TryFrom<u8>", "all 2^8 values"),
-    ("c15_ctor_macsec_short_len", "MacsecShortLen::try_from_u8 / TryFrom<u8>", "all 2^8 values"),
-    ("c15_ctor_igmp_qrv", "igmp::Qrv::try_new / TryFrom<u8>", "all 2^8 values"),
-]
-PROPS["C15"] = {
-    "claim": "complete value domains (no bound beyond the type widths): checked constructors accept exactly the values "
-             "that fit and report (actual, max, type) otherwise; to_bytes of each header equals the reference bit "
-             "layout written from the standards, so no field can touch a neighbouring bit; decoding arbitrary bytes "
-             "yields exactly the reference extraction (hence in-range values)",
-    "outside": "nothing inside the listed functions; headers not listed carry no bounded bit-field type",
-    "assumptions": ["reference bit layouts in kani/src/c15.rs are transcribed from IEEE 802.1Q/802.1AE, RFC 791/2474/"
-                    "3168/8200/9776 and share no constant with etherparse"],
-    "harnesses": [H(n, "c15", unwind=20, bounds=b, encodes=[e]) for (n, e, b) in _C15_CTORS] + [
-        H("c15_frag_offset_bytes", "c15", unwind=20, bounds="all 2^13 offsets", encodes=["IpFragOffset::byte_offset"]),
-        H("c15_vlan_pack", "c15", unwind=20, bounds="all field values",
-          encodes=["SingleVlanHeader::to_bytes", "SingleVlanHeader::from_bytes", "SingleVlanHeaderSlice::*"]),
-        H("c15_vlan_unpack", "c15", unwind=20, bounds="all 2^32 byte strings",
-          encodes=["SingleVlanHeaderSlice::*", "SingleVlanHeader::from_bytes", "SingleVlanHeader::to_bytes"]),
-        H("c15_ipv4_pack", "c15", unwind=20, bounds="all field values, no options",
-          encodes=["Ipv4Header::to_bytes", "Ipv4HeaderSlice::{dcp,ecn,dont_fragment,more_fragments,fragments_offset,..}"]),
-        H("c15_ipv4_unpack", "c15", unwind=20, bounds="all 20-byte headers with IHL 5",
-          encodes=["Ipv4HeaderSlice::from_slice", "Ipv4HeaderSlice::to_header"]),
-        H("c15_ipv6_pack", "c15", unwind=20, bounds="all field values",
-          encodes=["Ipv6Header::to_bytes", "Ipv6HeaderSlice::{traffic_class,flow_label,dscp,ecn,..}", "Ipv6Header::{dscp,ecn}"]),
-        H("c15_ipv6_unpack", "c15", unwind=20, bounds="all values of the first 8 bytes",
-          encodes=["Ipv6HeaderSlice::from_slice", "Ipv6HeaderSlice::to_header"]),
-        H("c15_ipv6_set_dscp_ecn", "c15", unwind=20, bounds="all values", encodes=["Ipv6Header::set_dscp", "Ipv6Header::set_ecn"]),
-        H("c15_ipv6_frag_pack", "c15", unwind=20, bounds="all field values",
-          encodes=["Ipv6FragmentHeader::to_bytes", "Ipv6FragmentHeaderSlice::*"]),
-        H("c15_ipv6_frag_unpack", "c15", unwind=20, bounds="all 2^64 byte strings",
-          encodes=["Ipv6FragmentHeaderSlice::*", "Ipv6FragmentHeader::is_fragmenting_payload"]),
-        H("c15_macsec_pack", "c15", unwind=20, bounds="all field values, all 4 payload types, with/without SCI",
-          encodes=["MacsecHeader::to_bytes", "MacsecHeader::header_len"]),
-        H("c15_macsec_unpack", "c15", unwind=20, bounds="all 16-byte strings",
-          encodes=["MacsecHeaderSlice::from_slice", "MacsecHeaderSlice::*", "MacsecHeaderSlice::to_header"]),
-        H("c15_igmp_query_bits", "c15", unwind=20, bounds="all values of byte 8 and of every setter argument",
-          encodes=["MembershipQueryWithSourcesHeader::{flags,set_flags,s_flag,set_s_flag,qrv,set_qrv}"]),
-    ],
-}
-
-
 def select(prop, tier, seed=0):
     hs = PROPS[prop]["harnesses"]
     if tier == "quick":
@@ -107,8 +47,26 @@ def select(prop, tier, seed=0):
     return list(hs)
 
 
-# properties not (yet) claimed: property id -> one-line reason (kept current; copied into MANIFEST.json)
+
+
+PROPS = {}
 NOT_APPLICABLE = {}
-for _p in ["C01", "C02", "C03", "C04", "C05", "C06", "C07", "C08", "C09", "C10", "C11", "C12", "C13", "C14", "C16", "C17"]:
-    if _p not in PROPS:
-        NOT_APPLICABLE[_p] = "harnesses for this property are not built yet (work in progress; planned in DESIGN.md section 5)"
+
+
+def _load():
+    import importlib, os, sys
+    here = os.path.dirname(os.path.abspath(__file__))
+    sys.modules.setdefault("registry", sys.modules[__name__])
+    for f in sorted(os.listdir(os.path.join(here, "reg"))):
+        if f.endswith(".py") and not f.startswith("_"):
+            m = importlib.import_module("reg." + f[:-3])
+            PROPS[m.ID] = m.PROP
+            if getattr(m, "NOT_APPLICABLE", None):
+                NOT_APPLICABLE[m.ID] = m.NOT_APPLICABLE
+    for i in range(1, 18):
+        p = "C%02d" % i
+        if p not in PROPS or not PROPS[p].get("harnesses"):
+            NOT_APPLICABLE.setdefault(p, "harnesses for this property are not built yet (work in progress; planned in DESIGN.md section 5)")
+
+
+_load()
